@@ -2,7 +2,7 @@
 From Coq Require Import List NArith Bool Lia.
 From GV Require Import Model.Walk Model.Pool.
 Import ListNotations.
-Open Scope N_scope.
+Local Open Scope N_scope.
 
 Lemma triple_eqb_eq a b : triple_eqb a b = true <-> a = b.
 Proof.
